@@ -7,7 +7,7 @@
    of pairwise.pyx / tracetable.pyx in the shape of the code (PairAlign!DPOptimal), and the
    invariants state that (b) has the property with respect to (a).
    The states of phase "done" are dumped and replayed against the real align_optimal (S2). *)
-EXTENDS PairAlign, TLC
+EXTENDS PairAlign, MatrixForms, TLC
 
 CONSTANTS MaxLen,       \* longest sequence
           K,            \* alphabet size (codes 0..K-1)
@@ -85,6 +85,50 @@ InvModeOrder ==
           /\ (inp.mode = "local" => out.opt >= 0)
           /\ (inp.mode = "global" => out.opt <= DPOptimalScore(inp.s1, inp.s2, M, inp.gap, "semi"))
           /\ (inp.mode = "semi" /\ ~IsAffine(inp.gap) => out.opt <= DPOptimalScore(inp.s1, inp.s2, M, inp.gap, "local"))
+
+(* ---- the substitution matrix as the caller specifies it (MatrixForms) ------------------
+   Every construction form of the same scores denotes the same table, so the optimum stated
+   above for inp.mat is the optimum for the matrix handed over as ndarray (any dtype / memory
+   order), as transposed ndarray, as dictionary of symbol pairings and as text / database
+   file.  The driver executes every enumerated input under rotating forms (S2) and TLC
+   re-derives the table from the recorded source (Trace.tla). *)
+AlphOf(n, base) == [k \in 1..n |-> base + k - 1]
+RevAlph(a) == [k \in DOMAIN a |-> a[Len(a) + 1 - k]]
+IdPerm(n) == [k \in 1..n |-> k]
+RevPerm(n) == [k \in 1..n |-> n + 1 - k]
+\* alphabet pairs: identical, same symbols in another order, disjoint
+AlphPairs(n1, n2) == {<<AlphOf(n1, 65), AlphOf(n2, 65)>>, <<AlphOf(n1, 65), RevAlph(AlphOf(n2, 65))>>,
+                      <<AlphOf(n1, 65), AlphOf(n2, 97)>>}
+FormSrcs(a1, a2, M) ==
+  {ArraySrc(a1, a2, M), TransposedSrc(a1, a2, M), DictSrc(a1, a2, M)}
+  \cup {TextSrc(a1, a2, M, p1, p2) : p1 \in {IdPerm(Len(a1)), RevPerm(Len(a1))},
+                                     p2 \in {IdPerm(Len(a2)), RevPerm(Len(a2))}}
+FormsDenote(M, n1, n2) ==
+  \A p \in AlphPairs(n1, n2) : \A s \in FormSrcs(p[1], p[2], M) : Dom_Src(s) /\ SrcTable(s) = M
+InvFormsDenote == FormsDenote(inp.mat, Len(inp.mat), Len(inp.mat[1]))
+
+TablesOver(nr, nc, V) == [1..nr -> [1..nc -> V]]
+ASSUME \A t \in TablesOver(2, 2, {-1, 0, 2}) : FormsDenote(t, 2, 2)
+ASSUME \A t \in TablesOver(2, 3, {-1, 2}) \cup TablesOver(3, 1, {-1, 2}) : FormsDenote(t, Len(t), Len(t[1]))
+ASSUME \A t \in TablesOver(3, 3, {0, 1}) : FormsDenote(t, 3, 3)
+\* a dictionary is looked up by symbol pair in the order (alphabet 1, alphabet 2): additional
+\* pairings - also the mirrored ones - do not matter
+ASSUME LET a == <<65, 66>>
+           b == <<97, 98>>
+           s == DictSrc(a, b, <<<<2, -1>>, <<0, 1>>>>)
+           t == [s EXCEPT !.dict = <<<<97, 65, 9>>, <<66, 66, 9>>>> \o s.dict \o <<<<98, 65, 9>>>>]
+       IN Dom_Src(t) /\ SrcTable(t) = <<<<2, -1>>, <<0, 1>>>>
+\* class docstring example: alph1 = (foo, bar), alph2 = (1, 2, 3)
+ASSUME SrcTable([NoSrc EXCEPT !.form = "dict", !.a1 = <<10, 11>>, !.a2 = <<1, 2, 3>>,
+                              !.dict = <<<<10, 1, 5>>, <<10, 2, 10>>, <<10, 3, 15>>,
+                                         <<11, 1, 42>>, <<11, 2, 42>>, <<11, 3, 42>>>>])
+         = <<<<5, 10, 15>>, <<42, 42, 42>>>>
+\* the known defect shape (finding C08-text-matrix-transposed) is the block-transposed reading:
+\* it differs from the denoted table exactly for non-symmetric blocks
+ASSUME \A t \in TablesOver(2, 2, {-1, 0, 2}) :
+          LET s == TextSrc(<<65, 66>>, <<65, 66>>, t, <<1, 2>>, <<1, 2>>)
+          IN /\ KB_SquareGrid(s) /\ KB_TextAsRead(s) = TransposeT(t, 2, 2)
+             /\ (KB_TextAsRead(s) = SrcTable(s)) <=> (t[1][2] = t[2][1])
 
 (* the code-shaped comparison cascades are the arg-max *)
 ASSUME \A a, b, c \in -2..2 : GetTraceLinear(a, b, c) = ArgMaxLinear(a, b, c)
